@@ -287,3 +287,20 @@ func Run(bodies []func(), maxSteps int, choose func(step int, enabled []int, run
 	}
 	return e
 }
+
+// ---- step counting (instr -mode steps; used by C08).  Single-goroutine use only.
+
+var Steps int64
+var StepBudget int64 = 1 << 62
+
+// StepBudgetExceeded is the panic value raised when a call exceeds its step budget.
+type StepBudgetExceeded struct{}
+
+func (StepBudgetExceeded) String() string { return "StepBudgetExceeded" }
+
+func Step() {
+	Steps++
+	if Steps > StepBudget {
+		panic(StepBudgetExceeded{})
+	}
+}
